@@ -78,24 +78,31 @@ func newLexer(env *ExecEnv, r io.RuneScanner) *lexer {
 		token:  make(chan interface{}),
 		cancel: make(chan struct{}),
 	}
+	verifYield(verifSpawn, l)
 	go l.run()
 	return l
 }
 
 func (l *lexer) Lex(lval *yySymType) int {
+	verifYield(verifPreRecv, l)
 	switch tok := (<-l.token).(type) {
 	case token:
+		verifYield(verifPostRecv, l)
 		lval.expr.s = tok.val
 		return tok.typ
 	case int:
+		verifYield(verifPostRecv, l)
 		lval.op = ops[tok]
 		return tok
 	}
+	verifYield(verifPostRecv, l)
 	return 0
 }
 
 func (l *lexer) run() {
+	verifYield(verifStart, l)
 	defer func() {
+		verifYield(verifTerminal, l)
 		close(l.token)
 
 		if e := recover(); e != nil {
@@ -348,9 +355,21 @@ func (l *lexer) emit(typ int) {
 	default:
 		tok = typ
 	}
+	switch verifYield(verifPreSend, l) {
+	case verifForceSend:
+		l.token <- tok
+		verifYield(verifPostSend, l)
+		return
+	case verifForceBail:
+		<-l.cancel
+		verifYield(verifBailout, l)
+		panic(nil)
+	}
 	select {
 	case l.token <- tok:
+		verifYield(verifPostSend, l)
 	case <-l.cancel:
+		verifYield(verifBailout, l)
 		// bailout
 		panic(nil)
 	}
@@ -384,6 +403,7 @@ func (l *lexer) Error(s string) {
 	case <-l.cancel:
 	default:
 		close(l.cancel)
+		verifYield(verifCancelClosed, l)
 	}
 }
 
